@@ -206,8 +206,20 @@ class DocGen:
             self.features.add("list")
         if is_nn(f["type"]):
             self.features.add("non-null")
-        return {"k": "field", "alias": alias, "n": f["name"], "args": args, "dirs": self.g_directives(),
-                "sel": sub}
+        dirs = self.g_directives()
+        outer = nullable(f["type"]) if is_nn(f["type"]) else f["type"]
+        if self.incremental and not isinstance(outer, str) and c.chance(150):
+            self.labels += 1
+            sargs = [["label", {"k": "str", "v": f"S{self.labels}"}]]
+            if c.chance(200):
+                sargs.append(["initialCount", {"k": "int", "v": str(c.choose([0, 0, 1, 1, 2, 3, 5]))}])
+            if c.chance(40):
+                sargs.append(["if", {"k": "bool", "v": bool(c.pick(3))}])
+            dirs = dirs + [{"n": "stream", "args": sargs}]
+            self.features.add("stream")
+            # a streamed field must not be merged with another selection of the same response key
+            self.registry.setdefault(path, {})[key] = ("<streamed>", self.labels)
+        return {"k": "field", "alias": alias, "n": f["name"], "args": args, "dirs": dirs, "sel": sub}
 
     def g_inline(self, tname, path, depth):
         c = self.c
@@ -268,6 +280,36 @@ class DocGen:
         if self.incremental and c.chance(110):
             dirs = dirs + [self.defer_directive()]
         return {"k": "spread", "n": name, "args": None, "dirs": dirs}
+
+    def g_overlap(self, tname, path):
+        """Incremental stratum: one composite field selected under the same response key by a deferred
+        fragment nested *below* it and by a sibling deferred fragment *above* it, with overlapping
+        sub-fields - a field shared by two deferred fragments at different path depths."""
+        import copy
+
+        c = self.c
+        comp = [f for f in self.fields_of(tname) if self.composite(named(f["type"]))
+                and not any(is_nn(a["type"]) and a["default"] is None for a in f["args"])]
+        if not comp:
+            return []
+        f = c.choose(comp)
+        key = self.fresh("x")
+        sig = (f["name"], _canon_args([]), type_str(f["type"]), tname)
+        self.try_register(path, key, sig)
+        ft = named(f["type"])
+        inner = self.g_selset(ft, path + (key,), 1)
+        shared = [copy.deepcopy(s) for s in inner if s["k"] == "field" and c.chance(170)] or \
+            [copy.deepcopy(inner[0])]
+        for s_ in shared:
+            s_["dirs"] = [d for d in s_["dirs"] if d["n"] not in ("defer", "stream")]
+        extra = self.g_selset(ft, path + (key,), 1) if c.chance(128) else []
+        deep = {"k": "field", "alias": key, "n": f["name"], "args": [], "dirs": [],
+                "sel": [{"k": "inline", "on": None, "dirs": [self.defer_directive()], "sel": inner}]}
+        above = {"k": "inline", "on": None, "dirs": [self.defer_directive()],
+                 "sel": [{"k": "field", "alias": key, "n": f["name"], "args": [], "dirs": [],
+                          "sel": shared + extra}]}
+        self.features.add("shared-field-at-two-depths")
+        return [deep, above] if c.chance(128) else [above, deep]
 
     # ---- whole documents ----------------------------------------------------------------------------
     def vardefs(self):
@@ -335,6 +377,8 @@ def g_document(c, m, depth=3, operation=None, incremental=False, n_ops=None, col
         gen.counter = counter
         root = m[kind]
         sel = gen.g_selset(root, (), depth)
+        if incremental and c.chance(90):
+            sel = gen.g_overlap(root, ()) + sel
         if kind == "mutation":
             # several top-level fields with sub-selections
             for _ in range(c.count(1, 3)):
